@@ -801,6 +801,13 @@ func Fixed(b *Base) []*Case {
 	out = append(out, mk("static-store", "static", b.Zoo["storefix"], 100000, "0", nil))
 	out = append(out, mk("static-nested-store", "call", b.Zoo["static-store"], 200000, "0", nil))
 	out = append(out, mk("static-fwd-reverter", "static", b.Zoo["fwd-reverter"], 200000, "0", nil))
-	// self-destruct of a contract that holds asset ids, inside a reverted frame
+	// the reward setter reached in a read-only context (only possible when the configured reward manager is a contract)
+	c = mk("static-reward-manager", "static", nine, 100000, "0", rewardJSON(1, fx.LEMO(100)))
+	c.RewardMgr = c.Caller
+	out = append(out, c)
+	fw := common.HexToAddress("0xc0de000000000000000000000000000000000a04")
+	c = mk("staticcall-reward-from-manager-contract", "call", fw, 300000, "0", nil, PreOp{Addr: fw.Hex(), Code: RtCallWithData(fx.STATICCALL, nine, 0, nil, rewardJSON(1, fx.LEMO(100)), 10)})
+	c.RewardMgr = fw.Hex()
+	out = append(out, c)
 	return out
 }
